@@ -177,7 +177,7 @@ func ruleInheritWalk(c *eng.Ctx) {
 			if !ok {
 				return
 			}
-			if call.Common().StaticCallee() == fn {
+			if eng.StaticCallee(call) == fn {
 				recursive = true
 			}
 		})
@@ -224,7 +224,7 @@ func ruleInheritWalk(c *eng.Ctx) {
 		if !ok {
 			if tr := p.Func("pages.(*PageTree).traversePageNode"); tr != nil {
 				for _, ci := range eng.Calls(tr, false, func(string, ssa.CallInstruction) bool { return true }) {
-					if ci.Common().StaticCallee() != tr {
+					if eng.StaticCallee(ci) != tr {
 						continue
 					}
 					a := ci.Common().Args
@@ -510,7 +510,7 @@ func callsAnchor(p *eng.Prog, fn *ssa.Function, name string) bool {
 		return false
 	}
 	for _, ci := range eng.Calls(fn, false, func(string, ssa.CallInstruction) bool { return true }) {
-		if ci.Common().StaticCallee() == target {
+		if eng.StaticCallee(ci) == target {
 			return true
 		}
 	}
